@@ -291,6 +291,13 @@ func (vt *Model) cup(pm [][]int) {
 		vt.cursor.row = row(pm[0][0] - 1)
 		vt.cursor.col = column(pm[1][0] - 1)
 	}
+	// A parameter of 0 means the default, 1
+	if vt.cursor.col < 0 {
+		vt.cursor.col = 0
+	}
+	if vt.cursor.row < 0 {
+		vt.cursor.row = 0
+	}
 	if vt.cursor.col > column(vt.width()-1) {
 		vt.cursor.col = column(vt.width() - 1)
 	}
